@@ -382,8 +382,9 @@ def kill_tree(pid):
 
 
 def run_cicada(sb, args, stdin=None, timeout=20.0, env_extra=None, watch=None, cwd=None,
-               budget=20000, binary=None, env_override=None):
-    """Run cicada with args (list).  stdin: None => /dev/null, bytes => pipe."""
+               budget=20000, binary=None, env_override=None, during=None):
+    """Run cicada with args (list).  stdin: None => /dev/null, bytes => pipe.
+    during: callable(shell_pid) run in a thread while the shell runs (to signal its children from outside)."""
     env = env_override if env_override is not None else sb.env(env_extra, watch, budget)
     t0 = time.time()
     r = RunResult()
@@ -399,6 +400,11 @@ def run_cicada(sb, args, stdin=None, timeout=20.0, env_extra=None, watch=None, c
         r.stdout_ino = r.stderr_ino = None
     r.timed_out = False
     r.diag = None
+    th = None
+    if during is not None:
+        import threading
+        th = threading.Thread(target=during, args=(p.pid,), daemon=True)
+        th.start()
     try:
         out, err = p.communicate(stdin, timeout=timeout)
     except subprocess.TimeoutExpired:
@@ -415,6 +421,8 @@ def run_cicada(sb, args, stdin=None, timeout=20.0, env_extra=None, watch=None, c
         os.killpg(p.pid, signal.SIGKILL)
     except OSError:
         pass
+    if th is not None:
+        th.join(2.0)
     r.rc = p.returncode
     r.out = out or b""
     r.err = err or b""
